@@ -499,6 +499,13 @@ impl Recorder {
 // ---------------------------------------------------------------------------------------------------
 // observing listeners: one event per chain::Listen call of each component, in main.rs' order
 
+/// listener calls started / completed during a scheduled concurrent run (real-time order of the operations against the
+/// critical sections of the chain event: an operation invoked after k listener calls had returned is linearized after them)
+pub static CONC_STARTED: std::sync::atomic::AtomicUsize = std::sync::atomic::AtomicUsize::new(0);
+pub static CONC_DONE: std::sync::atomic::AtomicUsize = std::sync::atomic::AtomicUsize::new(0);
+/// invocation / return order of the operations among themselves
+pub static CONC_CLOCK: std::sync::atomic::AtomicUsize = std::sync::atomic::AtomicUsize::new(0);
+
 pub struct Obs<L: chain::Listen> {
     pub inner: Arc<L>,
     pub name: &'static str,
@@ -516,7 +523,9 @@ impl<L: chain::Listen> chain::Listen for Obs<L> {
                     rec.conc_chain.push(json!(["conn", blk]));
                 }
             }
+            CONC_STARTED.fetch_add(1, std::sync::atomic::Ordering::SeqCst);
             self.inner.filtered_block_connected(header, txdata, height);
+            CONC_DONE.fetch_add(1, std::sync::atomic::Ordering::SeqCst);
             if self.name == "R" {
                 self.rec.lock().unwrap().spv_tip = Some(header.block_hash());
             }
@@ -554,7 +563,9 @@ impl<L: chain::Listen> chain::Listen for Obs<L> {
                     rec.conc_chain.push(json!(["disc", blk]));
                 }
             }
+            CONC_STARTED.fetch_add(1, std::sync::atomic::Ordering::SeqCst);
             self.inner.block_disconnected(header, height);
+            CONC_DONE.fetch_add(1, std::sync::atomic::Ordering::SeqCst);
             if self.name == "R" {
                 self.rec.lock().unwrap().spv_tip = Some(header.prev_blockhash);
             }
@@ -1474,6 +1485,9 @@ impl Rig {
         }
         let node_tip = { self.node.lock().unwrap().tip().block_hash() };
         let sched = crate::conc::Sched::new(n, prefix, random);
+        CONC_STARTED.store(0, std::sync::atomic::Ordering::SeqCst);
+        CONC_DONE.store(0, std::sync::atomic::Ordering::SeqCst);
+        CONC_CLOCK.store(0, std::sync::atomic::Ordering::SeqCst);
         {
             let mut rec = self.rec.lock().unwrap();
             rec.quiet = true;
@@ -1488,11 +1502,22 @@ impl Rig {
             let sched = sched.clone();
             let h = std::thread::spawn(move || {
                 sched.enter(i);
+                // invoked now: after `lo` listener calls had returned; returned before the call number `hi + 1` started
+                let lo = CONC_DONE.load(std::sync::atomic::Ordering::SeqCst);
+                let inv = CONC_CLOCK.fetch_add(1, std::sync::atomic::Ordering::SeqCst);
                 let r = catch_unwind(AssertUnwindSafe(job));
-                let (v, mon, abort) = match r {
+                let ret = CONC_CLOCK.fetch_add(1, std::sync::atomic::Ordering::SeqCst);
+                let hi = CONC_STARTED.load(std::sync::atomic::Ordering::SeqCst);
+                let (mut v, mon, abort) = match r {
                     Ok((v, m)) => (v, m, String::new()),
                     Err(_) => (json!({"code": "abort"}), None, take_abort_class().0),
                 };
+                if v.is_object() {
+                    v["__lo"] = json!(lo);
+                    v["__hi"] = json!(hi);
+                    v["__inv"] = json!(inv);
+                    v["__ret"] = json!(ret);
+                }
                 sched.exit(i);
                 let _ = tx.send((i, v, mon, abort, std::thread::current().id()));
             });
@@ -1533,6 +1558,17 @@ impl Rig {
             let mut o = d.clone();
             match &results[i] {
                 Some((v, abort)) => {
+                    let mut v = v.clone();
+                    if let Some(m) = v.as_object_mut() {
+                        if let (Some(lo), Some(hi)) = (m.remove("__lo"), m.remove("__hi")) {
+                            o["lo"] = lo;
+                            o["hi"] = hi;
+                        }
+                        if let (Some(a), Some(b)) = (m.remove("__inv"), m.remove("__ret")) {
+                            o["inv"] = a;
+                            o["ret"] = b;
+                        }
+                    }
                     o["reply"] = v.clone();
                     if !abort.is_empty() {
                         aborts.push(json!([i, abort]));
